@@ -72,6 +72,38 @@ Fixpoint steps_idx_lens (pat : list istep) (lo hi : nat) : list nat :=
       else 0 :: steps_idx_lens p lo lo
   end.
 
+
+(* ---------- row selection by index, used by the specification ---------- *)
+
+Definition pick {T} (t : list (list T)) (oi : option nat) : option (list T) :=
+  match oi with Some i => nth_error t i | None => None end.
+
+Fixpoint somes {A} (l : list (option A)) : list A :=
+  match l with [] => [] | Some x :: r => x :: somes r | None :: r => somes r end.
+
+(* the argument of the first nth / nth_back call of a pattern (0 when there is none): the k the
+   harness uses for skip(k) / step_by(k+1) / rev().skip(k) / rev().step_by(k+1) *)
+Fixpoint steps_k (pat : list istep) : nat :=
+  match pat with
+  | [] => 0
+  | SNth k :: _ => k
+  | SNthBack k :: _ => k
+  | _ :: p => steps_k p
+  end.
+
+(* the same calls seen from the other end: rev() of a double-ended iterator *)
+Definition mirror1 (s : istep) : istep :=
+  match s with SNext => SBack | SBack => SNext | SNth k => SNthBack k | SNthBack k => SNth k end.
+Definition mirror (pat : list istep) : list istep := map mirror1 pat.
+
+(* specification of step_by(k+1) on n rows: the indices i, i+(k+1), i+2(k+1), ... below n
+   (fuel = an upper bound of their number; n+1 is always enough from i = 0) *)
+Fixpoint stepby_idx (k fuel i n : nat) : list nat :=
+  match fuel with
+  | 0 => []
+  | S f => if i <? n then i :: stepby_idx k f (i + k + 1) n else []
+  end.
+
 (* the observation compared by the driver: rows handed out and len() after each call *)
 Definition steps_obs_eqb {T} (eqb : T -> T -> bool)
     (a b : list (option (list T))) : bool :=
